@@ -416,3 +416,16 @@ def np_linalg_eig_pd(interp, s):
         interp.ctx.assume(z3.Implies(pd_formula(_entries(s)), z3.And([lift(out[0].fn(k)) > 0 for k in range(m)])))
         interp.trusted_used.add("model:np.linalg.eig of a positive definite matrix has positive eigenvalues")
     return out
+
+
+@model(np.linalg.eigh)
+def np_linalg_eigh(interp, s, *a, **kw):
+    """ASSUMED contract of eigh for a real symmetric input (obligation): as eig, and the eigenvalues are in ascending order"""
+    if not deep_sym(s):
+        return np.linalg.eigh(s, *a, **kw)
+    W, V = np_linalg_eig_pd(interp, s)
+    m = W.shape[0]
+    for k in range(m - 1):
+        interp.ctx.assume(lift(W.fn(k)) <= lift(W.fn(k + 1)))
+    interp.trusted_used.add("model:np.linalg.eigh returns the eigenvalues in ascending order")
+    return W, V
